@@ -28,6 +28,7 @@ func runC17(c *Ctx, r *Rec) {
 		return
 	}
 	info := c.info("agent")
+	checkNoReentryAnywhere(c, r, "D2-no-reentry-under-lock", "collection", "GetIterator")
 	st := structOf(it)
 	if st == nil {
 		r.undecided("bind", "agent.iterator", "", "iterator type is not a struct")
